@@ -297,6 +297,12 @@ class Crate:
         """unique body whose printed path equals or ends with `path_suffix`"""
         c = [b for b in self.bodies if b.path == path_suffix]
         if not c:
+            # a function moved into a private module and re-exported keeps its last segments
+            c = [b for b in self.bodies if b.path.endswith("::" + path_suffix)]
+            pubs = [b for b in c if b.vis == "pub"]
+            if len(c) > 1 and len(pubs) == 1:
+                c = pubs
+        if not c:
             c = [b for b in self.bodies if b.path.endswith(path_suffix)]
         if len(c) == 1:
             return c[0]
